@@ -461,6 +461,14 @@ def build_estimator_case(a, entry, factory, single, shape, n, variant, rep, nq, 
     n_sts = 1 if shape == "N1" else n
     ops = [mk_op(rng, nq, as_label=rng.random() < 0.15, terms=6 if clifford else None) for _ in range(n_ops)]
     sts = [mk_state(rng, nq, rng.choice(kinds), clifford, depth=8 if clifford else None) for _ in range(n_sts)]
+    # the same object may occur several times in a batch (one state estimated for a list of operators written as
+    # [s, s, s]; an operator repeated): every occurrence is an input of its own
+    if n_sts > 1 and rng.random() < 0.3:
+        k = rng.randrange(n_sts)
+        sts = [sts[k] if rng.random() < 0.7 else s for s in sts] if rng.random() < 0.5 else [sts[k]] * n_sts
+    if n_ops > 1 and rng.random() < 0.2:
+        k = rng.randrange(n_ops)
+        ops = [ops[k]] * n_ops if rng.random() < 0.5 else [ops[k] if rng.random() < 0.6 else o for o in ops]
     qops, qsts = [o.op for o in ops], [s.state for s in sts]
     info = {"entry": entry, "shape": shape, "variant": variant, "n": n, "qubits": nq, "case_seed": cs,
             "operators": [o.desc for o in ops][:3], "states": [s.desc for s in sts][:2]}
@@ -544,6 +552,42 @@ def build_sampler_case(a, entry, factory, n, rep, nq, clifford=False, state_samp
         if bad:
             info["sequential_path_problem"] = bad
     return Case(entry, variant, n, call, ref, lambda got, r: cmp_counts(got, r[0], r[1]), info, seq_error=err)
+
+
+def build_lifted_psampler_case(a, n, rep, nq, variant, state_sampler):
+    """the generic lifts of a concurrent (state) sampler to a parametric one (core/sampling): the batch of (shots, parameter
+    vector) pairs is an Iterable - handed over as a list, a tuple, a generator, an iterator or a zip object"""
+    import quri_parts.core.sampling as CS
+    entry = ("create_concurrent_parametric_state_sampler_from_concurrent_state_sampler" if state_sampler
+             else "create_concurrent_parametric_sampler_from_concurrent_sampler")
+    cs = case_seed(a, entry, variant, n, rep)
+    rng = random.Random(cs)
+    ps = mk_pstate(rng, nq, rng.choice(["pqc", "lm"]))
+    params = [[rng.uniform(-math.pi, math.pi) for _ in range(ps.nparam)] for _ in range(n)]
+    base = rng.randint(3, 20)
+    shots = [base + 3 * i for i in range(n)]
+    sups = [{k for k, x in enumerate(ps.psi(p)) if abs(x) ** 2 > 1e-12} for p in params]
+    info = {"entry": entry, "shape": variant, "n": n, "qubits": nq, "case_seed": cs, "shots": shots}
+
+    def batch():
+        pairs = [(sh, list(p)) for sh, p in zip(shots, params)]
+        return {"list": lambda: pairs, "tuple": lambda: tuple(pairs), "generator": lambda: (x for x in pairs),
+                "iterator": lambda: iter(pairs), "zip": lambda: zip(shots, [list(p) for p in params])}[variant]()
+
+    def run(ex, c):
+        if state_sampler:
+            lifted = CS.create_concurrent_parametric_state_sampler_from_concurrent_state_sampler(
+                QSIM.create_concurrent_vector_state_sampler(ex, c))
+            return list(lifted(ps.state, batch()))
+        lifted = CS.create_concurrent_parametric_sampler_from_concurrent_sampler(QS.create_qulacs_vector_concurrent_sampler(ex, c))
+        return list(lifted(ps.state.parametric_circuit, batch()))
+
+    seq, err = try_seq(lambda: run(None, 1))
+    if err is None:
+        bad = cmp_counts(seq, shots, sups)
+        if bad:
+            info["sequential_path_problem"] = bad
+    return Case(entry, variant, n, run, (shots, sups), lambda got, r: cmp_counts(got, r[0], r[1]), info, seq_error=err)
 
 
 def build_overlap_case(a, n, rep, nq, variant):
@@ -693,6 +737,10 @@ def all_cases(a, res, ns, rep, nq, only_picklable=False):
         for variant in ("states", "parametric"):
             for n in ns:
                 yield build_overlap_case(a, n, rep, nq, variant)
+        for variant in ("list", "tuple", "generator", "iterator", "zip"):
+            for n in ns:
+                for ssamp in (False, True):
+                    yield build_lifted_psampler_case(a, n, rep, max(nq, 2), variant, ssamp)
 
 
 # ------------------------------------------------------------------------------------------ (2) sweep
